@@ -26,6 +26,7 @@ def handle (line : String) : String :=
       | "camera" => NumDriver.run j
       | "geo" => NumDriver.run j
       | "dispatcher" => DispatcherDriver.run j
+      | "dispatcher-nested" => DispatcherDriver.runNested j
       | "randomtrip" => RandomTripDriver.run j
       | "mission" => MissionDriver.run j
       | "missionFleet" => MissionDriver.runFleet j
